@@ -41,4 +41,103 @@ def collect(h):
     if marker == drops:
         raise h.Missing(f"{rel}: CompareAndDelete neither drops the cache entry nor caches the absence; update C07_Cache/Model.v")
     items.append(("cache_delete_leaves_marker", "bool", "true" if marker else "false", rel + " CompareAndDelete: cache update after a successful delete"))
+    items += big_values(h, rel)
+    return items
+
+
+def fastcache_chunk_size(h):
+    """chunkSize of the fastcache version the repository builds with (its Set silently ignores an entry
+    with 4+len(key)+len(value) >= chunkSize): read from the module cache, version from go.mod"""
+    import os
+    m = h.find("go.mod", r"^\s*github\.com/VictoriaMetrics/fastcache\s+(v[0-9][^\s]*)", "the fastcache requirement")
+    ver = m.group(1)
+    roots = []
+    if os.environ.get("GOMODCACHE"):
+        roots.append(os.environ["GOMODCACHE"])
+    for gp in (os.environ.get("GOPATH") or os.path.expanduser("~/go")).split(os.pathsep):
+        roots.append(os.path.join(gp, "pkg", "mod"))
+    for root in roots:
+        f = os.path.join(root, "github.com", "!victoria!metrics", "fastcache@" + ver, "fastcache.go")
+        if os.path.exists(f):
+            txt = h.src(f)  # absolute path: os.path.join keeps it
+            c = re.search(r"^const chunkSize = ([0-9_*<\s]+)$", txt, re.M)
+            if not c:
+                raise h.Missing(f"{f}: cannot locate chunkSize")
+            if not re.search(r"kvLen := uint64\(len\(kvLenBuf\) \+ len\(k\) \+ len\(v\)\)\s*\n\s*if kvLen >= chunkSize \{", txt) \
+                    or "var kvLenBuf [4]byte" not in txt \
+                    or not re.search(r"if len\(k\) >= \(1<<16\) \|\| len\(v\) >= \(1<<16\) \{", txt):
+                raise h.Missing(f"{f}: bucket.Set no longer drops exactly the entries with 4+len(k)+len(v) >= chunkSize or a 64 KB key/value; update fc_fits in C07_Cache/Model.v")
+            return go_product(c.group(1)), f"fastcache@{ver}/fastcache.go chunkSize"
+    raise h.Missing(f"fastcache {ver}: source not found in the module cache ({roots})")
+
+
+def go_product(txt):
+    """value of a constant expression made of integer literals, * and <<"""
+    txt = txt.strip().replace("_", "")
+    if not re.fullmatch(r"[0-9x*<\s]+", txt):
+        raise ValueError(txt)
+    return int(eval(txt, {"__builtins__": {}}))
+
+
+def big_values(h, rel):
+    """F26: how an entry too large for fastcache is handled. New shape: every positive store goes through
+    setCached (which stores the one-byte mark when len(key)+len(entry) >= maxCachedEntrySize) and the three
+    read paths test isUncacheable. Old shape: positive stores call s.cache.Set directly, no mark anywhere."""
+    s = h.src(rel)
+    chunk, chunk_prov = fastcache_chunk_size(h)
+    items = [("fastcache_chunk_size", "Z", str(chunk), chunk_prov)]
+    writers = {
+        "Put": r"^func \(s \*cachedAppStorage\) Put\(",
+        "PutBatch": r"^func \(s \*cachedAppStorage\) PutBatch\(",
+        "InsertIfNotExists": r"^func \(s \*cachedAppStorage\) InsertIfNotExists\(",
+        "CompareAndSwap": r"^func \(s \*cachedAppStorage\) CompareAndSwap\(",
+        "Get": r"^func \(s \*cachedAppStorage\) Get\(",
+        "getBatchFromStorage": r"^func \(s \*cachedAppStorage\) getBatchFromStorage\(",
+    }
+    readers = {
+        "Get": (r"^func \(s \*cachedAppStorage\) Get\(", r"if isCached && !isUncacheable\(cachedData\) \{", r"if isCached \{"),
+        "TTLGet": (r"^func \(s \*cachedAppStorage\) TTLGet\(", r"if isCached && !isUncacheable\(cachedData\) \{", r"if isCached \{"),
+        "getBatchFromCache": (r"^func \(s \*cachedAppStorage\) getBatchFromCache\(", r"if !isCached \|\| isUncacheable\(cachedData\) \{", r"if !isCached \{"),
+    }
+    # a positive store: the second argument is the encoded entry (x.ToBytes()), never nil
+    new_w, old_w = 0, 0
+    for name, pat in writers.items():
+        body = h.func_body(rel, pat, "cache " + name)
+        n_new = len(re.findall(r"s\.setCached\([^\n]*\.ToBytes\(\)\)", body))
+        n_old = len(re.findall(r"s\.cache\.Set\([^\n]*\.ToBytes\(\)\)", body))
+        if n_new + n_old != 1:
+            raise h.Missing(f"{rel}: {name} has {n_new + n_old} positive cache stores, expected one; update C07_Cache/Model.v")
+        new_w += n_new
+        old_w += n_old
+    new_r, old_r = 0, 0
+    for name, (pat, new_shape, old_shape) in readers.items():
+        body = h.func_body(rel, pat, "cache " + name)
+        if re.search(new_shape, body):
+            new_r += 1
+        elif re.search(old_shape, body):
+            old_r += 1
+        else:
+            raise h.Missing(f"{rel}: cannot recognise the cache-hit test of {name}; update C07_Cache/Model.v")
+    has_helper = re.search(r"^func \(s \*cachedAppStorage\) setCached\(", s, re.M) is not None
+    if new_w == len(writers) and new_r == len(readers) and has_helper:
+        m = h.find(rel, r"^const maxCachedEntrySize = ([0-9_*<\s\-]+)$", "maxCachedEntrySize")
+        expr = m.group(1).strip().replace("_", "")
+        mm = re.fullmatch(r"([0-9x*<\s]+?)\s*-\s*([0-9]+)", expr)
+        size = go_product(mm.group(1)) - int(mm.group(2)) if mm else go_product(expr)
+        body = h.func_body(rel, r"^func \(s \*cachedAppStorage\) setCached\(", "setCached")
+        if not re.search(r"if len\(key\)\+len\(entry\) >= maxCachedEntrySize \{\s*s\.cache\.Set\(key, uncacheable\)\s*return\s*\}\s*s\.cache\.Set\(key, entry\)", body):
+            raise h.Missing(f"{rel}: setCached is no longer 'mark when len(key)+len(entry) >= maxCachedEntrySize, else store'; update set_pos in C07_Cache/Model.v")
+        if not re.search(r"^var uncacheable = \[\]byte\{0\}\s*$", s, re.M) \
+                or not re.search(r"^func isUncacheable\(entry \[\]byte\) bool \{ return len\(entry\) == 1 \}", s, re.M):
+            raise h.Missing(f"{rel}: the mark is no longer the one-byte entry recognised by its length; update entry_len in C07_Cache/Model.v")
+        items.append(("cache_big_values_marked", "bool", "true", rel + " setCached at every positive store, isUncacheable in Get/TTLGet/getBatchFromCache"))
+        items.append(("cache_max_entry_size", "Z", str(size), rel + " maxCachedEntrySize"))
+    elif old_w == len(writers) and old_r == len(readers):
+        # the shape before the repair of F26: every entry goes to fastcache as it is; the limit the model
+        # then never consults is set to the point where fastcache starts ignoring entries
+        items.append(("cache_big_values_marked", "bool", "false", rel + " positive stores call s.cache.Set directly, reads do not know a mark"))
+        items.append(("cache_max_entry_size", "Z", str(chunk - 4), "(not in the source: fastcache chunkSize - 4)"))
+    else:
+        raise h.Missing(f"{rel}: entries too large for fastcache are handled inconsistently "
+                        f"(positive stores through setCached: {new_w}, direct: {old_w}; reads testing isUncacheable: {new_r}, not: {old_r}); update C07_Cache/Model.v")
     return items
